@@ -5,6 +5,8 @@ import (
 	"strings"
 	"time"
 
+	"github.com/rminnich/go9p"
+
 	"verif/core"
 	"verif/script"
 	"verif/wire"
@@ -46,6 +48,17 @@ func c12Cases(tier string, seed int64) []core.Case {
 				return c12Grid(ctx, sm, sdotu, tier == "thorough")
 			}})
 		}
+	}
+	// the library's "akaros" switch changes the text of every Rerror (error number in hex in front): replies must
+	// obey msize all the same
+	for _, sdotu := range []bool{true, false} {
+		sdotu := sdotu
+		cases = append(cases, core.Case{ID: fmt.Sprintf("grid/srvmsize=8192/srvdotu=%v/akaros", sdotu), Run: func(ctx *core.Ctx) core.Result {
+			old := *go9p.Akaros
+			*go9p.Akaros = true
+			defer func() { *go9p.Akaros = old }()
+			return c12Grid(ctx, 8192, sdotu, false)
+		}})
 	}
 	for _, dotu := range []bool{false, true} {
 		dotu := dotu
@@ -263,6 +276,21 @@ func c12Session(ctx *core.Ctx, res *core.Result, s *Sess, c *CConn, msize uint32
 				res.Violate("C12;wrong-dialect;"+kind, fmt.Sprintf("%s also decodes in the dialect that was not negotiated", wire.TypeName(rep.Msg.Type)), d)
 			}
 		}
+		if kind == "error" && plan.Err != "" {
+			// the implementation answered with an error: the reply is that error, its text cut to fit if it must be
+			text := plan.Err
+			if *go9p.Akaros {
+				text = fmt.Sprintf("%04X %v", plan.Errnum, plan.Err)
+			}
+			switch {
+			case rep.Msg.Type != wire.Rerror:
+				res.Violate("C12;error-reply-replaced;"+sizeClass, fmt.Sprintf("the implementation answered with an error of %d bytes (errnum %#x); the client received %s", len(plan.Err), plan.Errnum, rep.Msg.String()), d)
+			case !strings.HasPrefix(text, rep.Msg.Ename) || (dotu && rep.Msg.Ecode != plan.Errnum):
+				res.Violate("C12;error-reply-garbled;"+sizeClass, fmt.Sprintf("Rerror %q/%d is not (a prefix of) the error the implementation gave (errnum %#x, %d bytes)", short(rep.Msg.Ename), rep.Msg.Ecode, plan.Errnum, len(plan.Err)), d)
+			case len(rep.Msg.Ename) < len(text) && len(rep.Raw) < int(msize)-8:
+				res.Violate("C12;error-text-cut-needlessly;"+sizeClass, fmt.Sprintf("error text cut to %d of %d bytes although the frame has only %d of %d bytes", len(rep.Msg.Ename), len(text), len(rep.Raw), msize), d)
+			}
+		}
 		if m.Type == wire.Tread && rep.Msg.Type == wire.Rread && rep.Msg.Count > m.Count {
 			res.Violate("C12;read-more-than-asked", fmt.Sprintf("Rread count %d for Tread count %d", rep.Msg.Count, m.Count), d)
 		}
@@ -307,9 +335,11 @@ func c12Session(ctx *core.Ctx, res *core.Result, s *Sess, c *CConn, msize uint32
 		if n < 0 || n > 60000 {
 			continue // an error text must itself be representable as a 9P string
 		}
-		p := script.NewPlan()
-		p.Err, p.Errnum = strings.Repeat("e", n), 77
-		check("error", &wire.Msg{Type: wire.Tstat, Fid: 1}, p, fmt.Sprintf("len%d", n-int(msize)))
+		for _, en := range []uint32{77, 0xFFFF, 0x10000, 0xFFFFFFFF} {
+			p := script.NewPlan()
+			p.Err, p.Errnum = strings.Repeat("e", n), en
+			check("error", &wire.Msg{Type: wire.Tstat, Fid: 1}, p, fmt.Sprintf("len%d;errnum%#x", n-int(msize), en))
+		}
 	}
 	// framework errors
 	check("fwerror", &wire.Msg{Type: wire.Tstat, Fid: 4242}, nil, "unknownfid")
